@@ -54,6 +54,17 @@ def one(n):
 from concurrent.futures import ThreadPoolExecutor
 with ThreadPoolExecutor(max_workers=int(os.environ.get('SEED_JOBS', '4'))) as ex:
     rows = list(ex.map(one, names))
+# the index always lists every stored seed: rows of seeds not run this time come from their meta.json
+ran = {r[0]: r for r in rows}
+rows = []
+for n in sorted(d for d in os.listdir(os.path.join(ROOT, "seeded")) if os.path.isdir(os.path.join(ROOT, "seeded", d))):
+    if n in ran:
+        rows.append(ran[n])
+        continue
+    mp = os.path.join(ROOT, "seeded", n, "meta.json")
+    if os.path.exists(mp):
+        m = json.load(open(mp))
+        rows.append((n, m.get("summary", ""), m.get("needs", ""), (m.get("checks_run") or {}).get("results", {})))
 with open(os.path.join(ROOT, "seeded", "INDEX.md"), "w") as f:
     f.write("# Seeded changes\n\nEach directory holds an independently written change to vulcand/oxy that breaks one property while compiling and "
             "passing the existing suite (patch.diff), its demonstration (demo_test.go.txt, first line = path inside the repo) and meta.json "
